@@ -751,7 +751,7 @@ def run(run: core.Run, tier: str):
       # depends on the input; k = 1: clamped to 1).  Every second group has its maximum attained TWICE (TF would
       # split a max-gradient among ties), rank 3 included.  The gradient of EVERY element, the arg-max included,
       # must be exactly 1 (tanh' of the carrier for alpha=None): a normaliser that carries a gradient is a violation.
-      # ALL-ZERO groups (a zeros-initialised bias, a dead channel): 2*m = 0, the code falls back to f = 1 (0c3be6f) —
+      # ALL-ZERO groups (a zeros-initialised bias, a dead channel): 2*m = 0, the code falls back to f = 1 (c0623bb) —
       # value and gradient must be finite, the gradient 1.
       for alpha in (None, 1.0, 0.5, "auto", "auto_po2"):
         for shape_kind in ("rank1", "rank1_zero", "rank2", "rank3"):
